@@ -842,6 +842,7 @@ func init() {
 			c.AuthoriseBeforeAct("C07")
 			c.ResolvedName("C07")
 			c.LosslessSplit("C07")
+			c.ConfigOrderPreserved("C07")
 			c.DispatchTable("C07")
 			c.PreCheckRules("C07")
 			c.ImmutableAfterConstruction("C09.O5 config.immutable", pkgChecker, "permission table")
